@@ -232,6 +232,21 @@ def decodability(s):
     return False, widths, 'variable-length part(s) without length prefix: %s' % [show(parts[i])[:80] for i in unpref]
 
 
+# dependency functions whose decoding behaviour (accepted set, canonicity) was reviewed (DESIGN 3.6).  A group decoder whose result is
+# built with any other function is "canonicity not established".
+REVIEWED_DECODER_FNS = (
+    'curve25519_dalek::ristretto::CompressedRistretto::from_slice', 'curve25519_dalek::ristretto::CompressedRistretto::decompress',
+    'curve25519_dalek::scalar::Scalar::from_canonical_bytes', 'curve25519_dalek::scalar::clamp_integer',
+    'elliptic_curve::public_key::PublicKey::from_sec1_bytes', 'elliptic_curve::public_key::PublicKey::to_projective',
+    'elliptic_curve::secret_key::SecretKey::from_slice', 'elliptic_curve::secret_key::SecretKey::to_nonzero_scalar',
+    'From', 'core::ops::deref::Deref::deref',
+)
+REVIEWED_ENCODER_FNS = (
+    'curve25519_dalek::montgomery::MontgomeryPoint::to_bytes', 'curve25519_dalek::ristretto::RistrettoPoint::compress',
+    'curve25519_dalek::ristretto::CompressedRistretto::to_bytes', 'curve25519_dalek::scalar::Scalar::to_bytes',
+    'elliptic_curve::sec1::ToEncodedPoint::to_encoded_point', 'sec1::point::EncodedPoint::as_bytes', 'From',
+)
+
 BYTE_OPS = ('idxwrite', 'splice', 'xor', 'BitAnd', 'BitOr', 'BitXor', 'Shl', 'Shr', 'Slice', 'SliceMut', 'index', 'repeat', 'Not', 'Add', 'Sub', 'Mul')
 
 
@@ -266,6 +281,12 @@ def group_codec_purity(ctx, rep, rule, sn):
                 for nf in normalisers:
                     fixed = any(e[0] == 'assume' and e[2] == 1 and e[1][0] == 'app' and e[1][1] in ('eq', 'ct_eq') and nf in e[1][2] and Sym(pname) in e[1][2] for e in p.events)
                     norm_guard = norm_guard and fixed
+            allowed = REVIEWED_DECODER_FNS if name.startswith('deserialize') else REVIEWED_ENCODER_FNS
+            unknown = sorted(set(t[1] for t in subterms(val, lambda t: t[0] == 'app' and t[1] not in allowed and t[1] not in BYTE_OPS)))
+            unknown_adt = [t[1] for t in subterms(val, lambda t: t[0] == 'adt' and not (t[1].endswith('MontgomeryPoint') and dict(t[3]).get('0') == Sym(pname)))]
+            rep.ob(rule, 'KeGroup::%s is built only from reviewed dependency codec functions' % name, not unknown and not unknown_adt,
+                   'result %s uses %s, whose accepted set / canonicity is not in the reviewed table (DESIGN 3.6): one value may get several encodings' % (
+                       show(val)[:160], unknown + unknown_adt), w, sn)
             good = not bad and uses and not partial and norm_guard
             n += int(good)
             rep.ob(rule, 'KeGroup::%s is the dependency codec applied to the whole argument, without byte-level edits' % name, good,
